@@ -130,6 +130,8 @@ type VC struct {
 	litTerms    map[Term]bool
 	addrVars    map[ssa.Value]bool // allocations that hold source variables (debug refs with IsAddr)
 	evalPos     token.Pos // source position at which contract names are resolved (type-switch variables)
+	escapedLib  []*LV     // locations whose address was passed to a library function
+	libCells    map[string]string // cell arrays holding variables whose address a library function has seen
 }
 
 type hdrInfo struct {
@@ -607,7 +609,7 @@ func (vc *VC) check(kind string, pos token.Pos, text string, cond Term, props []
 func (vc *VC) checkG(kind string, pos token.Pos, text string, guard, cond Term, props []string) *Obligation {
 	if cond == "true" {
 		switch kind {
-		case "at-call", "at-return", "body-calls", "body-stores", "forbid-call", "format-const", "map-order", "loop-complete", "ensures", "inv-entry", "inv-preserved", "decreases", "fresh-writes":
+		case "at-call", "at-return", "body-calls", "body-stores", "forbid-call", "format-const", "map-order", "loop-complete", "loop-nobreak", "loop-noreturn", "ensures", "inv-entry", "inv-preserved", "decreases", "fresh-writes":
 			// syntactically trivial contract obligations are still recorded: if the code changes they
 			// become real obligations under the same name
 		default:
